@@ -63,19 +63,34 @@ class BudgetExceeded(Exception):
     """The term algebra used more memory than the budget allows (an exponential case split in the analysed code)."""
 
 
-_BUDGET = {"n": 0, "mb": 2200}
+_BUDGET = {"n": 0, "mb": 2200, "base": 0}
+
+
+def _rss_mb():
+    try:
+        with open("/proc/self/statm") as f:
+            return int(f.read().split()[1]) * 4096 // (1 << 20)  # current resident set, MB
+    except Exception:
+        return None
+
+
+def budget_baseline():
+    """Called at the start of every check context: the budget is what THIS analysis adds, not what an earlier one in the
+    same worker process left resident (the allocator does not always return freed memory)."""
+    import gc
+    gc.collect()
+    r = _rss_mb()
+    _BUDGET["base"] = min(r or 0, 1400)   # never let a bloated worker hide a real blow-up completely
 
 
 def _check_budget():
     _BUDGET["n"] += 1
     if _BUDGET["n"] & 0x3FFF:
         return
-    try:
-        with open("/proc/self/statm") as f:
-            rss = int(f.read().split()[1]) * 4096 // (1 << 20)  # current resident set, MB
-    except Exception:
+    rss = _rss_mb()
+    if rss is None:
         return
-    if rss > _BUDGET["mb"]:
+    if rss - _BUDGET["base"] > _BUDGET["mb"]:
         raise BudgetExceeded("term construction exceeded %d MB" % _BUDGET["mb"])
 
 
